@@ -506,7 +506,7 @@ def fam_select():
                                          (":0", ["k = k + 100"]))])], dom=dom, fills=[1]))
     out.append(Prog("select|exitinside",
                     ["k = 0", do("i", "1", "6", None,
-                                 [select("i", ("n", ["exit"]), ("2, 4", ["cycle"]), ("default", ["k = k + i"])),
+                                 [select("i", ("3", ["exit"]), ("2, 4", ["cycle"]), ("default", ["k = k + i"])),
                                   "k = k + 100"])], dom=dom, fills=[1]))
     # logical selectors
     ldom = {"n": [0, 2, 3], "flag": [True, False]}
